@@ -281,5 +281,71 @@ def sg_purge_directions(prog: Program) -> RuleResult:
     return r
 
 
+def rel_live(prog: Program) -> RuleResult:
+    """Dead instances are swept lazily (when a query is evaluated).  Until then their nodes and edges are still in the graph, so
+    whatever hands edges to the inference procedure has to leave out the ones with a dead endpoint - or sweep first."""
+    from ..astutil import calls_in, call_name
+
+    r = RuleResult("REL-LIVE", "relations handed out by the graph have two live endpoints", floor=2)
+    sg = prog.cls(SG)
+    n = 0
+    for name, f in sorted(sg.methods.items()):
+        reads = [c for c in calls_in(f.node) if call_name(c) in ("in_edges", "out_edges") and "_instance_graph" in src(c.func)]
+        if not reads or name in ("remove_node",):
+            continue
+        n += 1
+        sweeps = any(call_name(c) == "remove_dead_instances" for c in calls_in(f.node))
+        filtered = True
+        for c in reads:
+            # the comprehension / loop that iterates the edges must test liveness of both endpoints (directly or through a helper of the class)
+            ok = False
+            for x in ast.walk(f.node):
+                conds = []
+                if isinstance(x, (ast.GeneratorExp, ast.ListComp, ast.SetComp)) and any(c in list(ast.walk(g.iter)) for g in x.generators):
+                    conds = [i for g in x.generators for i in g.ifs]
+                if isinstance(x, ast.For) and c in list(ast.walk(x.iter)):
+                    conds = [t.test for t in ast.walk(x) if isinstance(t, ast.If)]
+                for cond in conds:
+                    if _tests_both_alive(prog, sg, cond):
+                        ok = True
+            filtered = filtered and ok
+        r.check(sweeps or filtered, f"SymbolGraph.{name}#live-endpoints", site(f, reads[0]), src(reads[0]), "edges with a dead endpoint are left out (or the dead are swept first)",
+                "edges of instances that were garbage collected but not swept yet are handed out: the inference procedure pairs a new relation with them and dereferences the dead "
+                "instance (d.part_of = [a]; del d; a.part_of = [y] raises AttributeError on None), so the new relation's consequences are lost")
+    if n < 2:
+        raise AnalysisError(f"REL-LIVE: only {n} edge readers found in SymbolGraph")
+    return r
+
+
+def _tests_both_alive(prog: Program, sg, cond: ast.expr, depth: int = 0) -> bool:
+    def alive(e: ast.expr, pol: bool) -> Set[str]:
+        """endpoints known to be alive when `e` evaluates to `pol`"""
+        if isinstance(e, ast.UnaryOp) and isinstance(e.op, ast.Not):
+            return alive(e.operand, not pol)
+        if isinstance(e, ast.BoolOp):
+            if isinstance(e.op, ast.And) == pol:
+                return set().union(*[alive(v, pol) for v in e.values])
+            parts = [alive(v, pol) for v in e.values]
+            return set.intersection(*parts) if parts else set()
+        if isinstance(e, ast.Compare) and len(e.ops) == 1 and isinstance(e.comparators[0], ast.Constant) and e.comparators[0].value is None:
+            l = e.left
+            if isinstance(l, ast.Attribute) and l.attr == "instance" and isinstance(l.value, ast.Attribute) and l.value.attr in ("source", "target"):
+                if isinstance(e.ops[0], ast.IsNot) == pol and isinstance(e.ops[0], (ast.Is, ast.IsNot)):
+                    return {l.value.attr}
+        return set()
+
+    if alive(cond, True) >= {"source", "target"}:
+        return True
+    if depth < 2:
+        for c in [x for x in ast.walk(cond) if isinstance(x, ast.Call)]:
+            nm = c.func.attr if isinstance(c.func, ast.Attribute) else (c.func.id if isinstance(c.func, ast.Name) else None)
+            h = sg.methods.get(nm) if nm else None
+            if h is not None:
+                for ret in [x for x in ast.walk(h.node) if isinstance(x, ast.Return) and x.value is not None]:
+                    if _tests_both_alive(prog, sg, ret.value, depth + 1):
+                        return True
+    return False
+
+
 def run(prog: Program, tier: str) -> List[RuleResult]:
-    return [sg_coherence(prog), idkey(prog), rel_gate(prog), sg_purge_directions(prog)]
+    return [sg_coherence(prog), idkey(prog), rel_gate(prog), sg_purge_directions(prog), rel_live(prog)]
